@@ -273,6 +273,8 @@ class C26(ByteChanSpec):
     def generate(self, rng, idx, tier):
         case = super(C26, self).generate(rng, idx, tier)
         case["opts"] = rng.choice(VIEW_OPTS) if rng.random() < 0.25 else []
+        if "sweep" in case:
+            case["opts"] = []  # the enumeration arm always decides (default options)
         case["clock"] = [rng.choice([0.0, 0.0, 0.001, 0.05, 0.2, 1.0, 3600.0, -5.0, -3600.0]) for _ in range(rng.randrange(1, 6))]
         case["interval"] = rng.choice([0.1, 0.1, 0.0, 0.001, 10.0])
         return case
